@@ -29,6 +29,17 @@ type Listable interface {
 	Item(index int) Value
 }
 
+// compareOrdered compares by order, not by subtraction which wraps around for
+// unsigned and narrow or 64-bit signed types.
+func compareOrdered[T int8 | int16 | int64 | uint8 | uint16 | uint | uint64](a, b T) int {
+	if a < b {
+		return -1
+	} else if a > b {
+		return 1
+	}
+	return 0
+}
+
 ///////////////////////
 
 type String string
@@ -194,7 +205,7 @@ func (x Int8) Value() interface{} {
 }
 
 func (x Int8) Compare(y Comparable) int {
-	return int(int8(x) - y.Value().(int8))
+	return compareOrdered(int8(x), y.Value().(int8))
 }
 
 func (x Int8) Int64() int64 {
@@ -242,13 +253,7 @@ func (x UInt8) Value() interface{} {
 }
 
 func (x UInt8) Compare(b Comparable) int {
-	c := uint8(x) - b.Value().(uint8)
-	if c < 0 {
-		return -1
-	} else if c > 0 {
-		return 1
-	}
-	return 0
+	return compareOrdered(uint8(x), b.Value().(uint8))
 }
 
 func (x UInt8) Int64() int64 {
@@ -296,7 +301,7 @@ func (x Int16) Value() interface{} {
 }
 
 func (x Int16) Compare(y Comparable) int {
-	return int(int16(x) - y.Value().(int16))
+	return compareOrdered(int16(x), y.Value().(int16))
 }
 
 func (x Int16) Int64() int64 {
@@ -344,13 +349,7 @@ func (x UInt16) Value() interface{} {
 }
 
 func (x UInt16) Compare(b Comparable) int {
-	c := uint16(x) - b.Value().(uint16)
-	if c < 0 {
-		return -1
-	} else if c > 0 {
-		return 1
-	}
-	return 0
+	return compareOrdered(uint16(x), b.Value().(uint16))
 }
 
 func (x UInt16) Int64() int64 {
@@ -446,13 +445,7 @@ func (x UInt32) Value() interface{} {
 }
 
 func (x UInt32) Compare(b Comparable) int {
-	c := uint(x) - b.Value().(uint)
-	if c < 0 {
-		return -1
-	} else if c > 0 {
-		return 1
-	}
-	return 0
+	return compareOrdered(uint(x), b.Value().(uint))
 }
 
 func (x UInt32) Int64() int64 {
@@ -500,13 +493,7 @@ func (x Int64) Value() interface{} {
 }
 
 func (x Int64) Compare(b Comparable) int {
-	c := int64(x) - b.Value().(int64)
-	if c < 0 {
-		return -1
-	} else if c > 0 {
-		return 1
-	}
-	return 0
+	return compareOrdered(int64(x), b.Value().(int64))
 }
 
 func (x Int64) Int64() int64 {
@@ -554,13 +541,7 @@ func (x UInt64) Value() interface{} {
 }
 
 func (x UInt64) Compare(b Comparable) int {
-	c := uint64(x) - b.Value().(uint64)
-	if c < 0 {
-		return -1
-	} else if c > 0 {
-		return 1
-	}
-	return 0
+	return compareOrdered(uint64(x), b.Value().(uint64))
 }
 
 // Cannot safely convert to int64
